@@ -2,4 +2,4 @@
    ProofsTheta.v (white space is invisible to reading and to update; update on a plain layout),
    ProofsTheta2.v (read-back of one theta and of a whole record; grammar of the result) and
    ProofsDemo.v (the demo float instance obeys the float laws); ProofsDriver.v / ProofsRealise.v: update_thetas.  This file only gathers them. *)
-From PV Require Export C04.Cst C04.Lcs C04.Model C04.ModelOmega C04.ModelRv C04.ModelCreate C04.ProofsLcs C04.ProofsTheta C04.ProofsTheta2 C04.ProofsOmega C04.ProofsDriver C04.ProofsRealise C04.ProofsRv C04.ProofsCreate C04.Demo C04.ProofsDemo.
+From PV Require Export C04.Cst C04.Lcs C04.Model C04.ModelOmega C04.ModelRv C04.ModelCreate C04.ProofsLcs C04.ProofsTheta C04.ProofsTheta2 C04.ProofsOmega C04.ProofsDriver C04.ProofsRealise C04.ProofsRv C04.ProofsCreate C04.ProofsRemove C04.Demo C04.ProofsDemo.
